@@ -41,6 +41,49 @@ def dispatchC08 : List Str → Option (List Str)
         let chains := (rest.drop k).map (fun c => splitOn '%' c [])
         some ("ok".toList :: joinSep ',' (scopeNames u) :: keptCalls h u chains)
       | _ => some ["bad-request".toList]
+    else if cmd == "c08.chains".toList then
+      -- c08.chains <args,> <ret|-> <retTyped 0/1> <hprocs,> <htypes,> <hvars,> <vtypes n:t;> <fnret n:t;>
+      --            <tprocs n:t;> <ntypes> typedef*ntypes <n> stmt*n <K|F> chain*
+      --   typedef = name|binding:owner;...|component:type;...|parent;...
+      --   K: `unit.calls` after correlate;  F: `_find_chain_item` per chain
+      match args with
+      | as :: ret :: rt :: hp :: ht :: hv :: vt :: fr :: tp :: nt :: rest =>
+        let sp (c : Char) (x : Str) : List Str := if x.isEmpty then [] else splitOn c x []
+        let pair (x : Str) : Str × Str := match splitOn ':' x [] with
+          | [a, b] => (a, b)
+          | a :: _ => (a, [])
+          | [] => ([], [])
+        let pairs (x : Str) : List (Str × Str) := (sp ';' x).map pair
+        let opt (x : Str × Str) : Str × Option Str := (x.1, if x.2.isEmpty then none else some x.2)
+        let kt := natOf nt
+        let tds : List Chain.TypeDef := (rest.take kt).filterMap (fun f =>
+          match splitOn '|' f [] with
+          | [n, b, c, p] => some { name := n, bound := pairs b, comps := pairs c, parents := sp ';' p }
+          | _ => none)
+        let w : Chain.World := { types := tds, procs := (pairs tp).map opt }
+        match rest.drop kt with
+        | n :: rest2 =>
+          let k := natOf n
+          let stmts : List Scope.SpecStmt := (rest2.take k).filterMap (fun f =>
+            match splitOn '|' f [] with
+            | [t, a, b] => if t == ['T'] then some (.tdecl (sp ';' a) (sp ';' b)) else some (.astmt a (sp ';' b))
+            | _ => none)
+          let u : Scope.Unit := { stmts := stmts, args := sp ',' as,
+                                  ret := if ret == ['-'] then none else some ret, retTyped := rt == ['1'] }
+          let h : Scope.Host := { procs := sp ',' hp, types := sp ',' ht, vars := sp ',' hv }
+          match rest2.drop k with
+          | mode :: chains =>
+            let chs := chains.map (fun c => splitOn '%' c [])
+            if mode == ['K'] then
+              some ("ok".toList :: (keptAll w h u (pairs vt) ((pairs fr).map opt) chs).map Chain.showKept)
+            else
+              some ("ok".toList :: chs.map (fun ch =>
+                match chainItem w h u (pairs vt) ((pairs fr).map opt) ch with
+                | some i => Chain.showItem i
+                | none => ['-']))
+          | [] => some ["bad-request".toList]
+        | [] => some ["bad-request".toList]
+      | _ => some ["bad-request".toList]
     else if cmd == "c08.strip".toList then
       match args with
       | [d, s] => some ("ok".toList :: stripParen s (natOf d))
@@ -96,6 +139,15 @@ def dispatchC08 : List Str → Option (List Str)
       some (match readAll Marks.default args with
         | .ok items => "ok".toList :: items.filter (fun s => s.head? != some '!')
         | .error _ => ["err".toList])
+    else if cmd == "c08.fixed".toList then
+      -- c08.fixed <variant: 3 x 0/1> <limit 0/1> card* : fixed-form cards (with terminator) -> the statements
+      match args with
+      | v :: lim :: cards =>
+        let var : Fixed.Variant := match v with
+          | [a, b, c] => { blankShort := a == '1', col7Comment := b == '1', spacedExcess := c == '1' }
+          | _ => {}
+        some ("ok".toList :: fixedStatements var (lim == ['1']) cards)
+      | _ => some ["bad-request".toList]
     else if cmd == "c08.gate".toList then
       -- c08.gate <blocklevel> <masked line> : branch taken
       match args with
